@@ -18,6 +18,22 @@ def leaf(rng, labs, allow=("label", "var", "dict", "model")):
         if l2 == l:
             return {(l,): 1}, (lambda x, l=l: x[l]), "{(%r,):1}" % (l,)
         return {(l,): 1, (l, l2): -1}, (lambda x, l=l, l2=l2: x[l] * (1 - x[l2])), "{%r(1-%r)}" % (l, l2)
+    if rng.random() < 0.4:
+        # a named variable object that was edited in place (the name survives in-place edits)
+        x = L.boolean_var(l)
+        how2 = rng.choice(["not", "and-other", "times-one"])
+        if how2 == "not":
+            x *= -1
+            x += 1
+            return x, (lambda a, l=l: 1 - a[l]), "inplace{1-%r}" % (l,)
+        if how2 == "and-other":
+            l3 = rng.choice(labs)
+            x *= {(l3,): 1}
+            return x, (lambda a, l=l, l3=l3: a[l] * a[l3]), "inplace{%r*%r}" % (l, l3)
+        x *= 1
+        x[(l,)] = 0
+        x[()] = 1
+        return x, (lambda a: 1), "inplace{1}"
     T = rng.choice([L.PUBO, L.PCBO])
     l2 = rng.choice(labs)
     return T({(l, l2): 1}), (lambda x, l=l, l2=l2: x[l] * x[l2]), "%s{%r*%r}" % (T.__name__, l, l2)
